@@ -98,7 +98,7 @@ func (c05Prop) Gen(t *Tape, ph *PhaseCfg) Case {
 	}
 	// swarm knob: how fault-prone this run is (0 = fault-free configuration)
 	rate := []int{0, 1, 3, 6}[t.Draw(4)]
-	tc := genTree(t, TreeOpts{Depth: -1, MaxDepth: ph.P["maxdepth"], Policy: -1, CB: func(t *Tape, lvl int, role string, onPath bool) CB {
+	tc := genTree(t, TreeOpts{Depth: -1, MaxDepth: ph.P["maxdepth"], Policy: -1, Fancy: true, CB: func(t *Tape, lvl int, role string, onPath bool) CB {
 		if !onPath && role == "action" {
 			// ancestor: recording or absent
 			if t.Draw(2) == 0 {
@@ -115,6 +115,9 @@ func (c05Prop) Gen(t *Tape, ph *PhaseCfg) Case {
 		cb := drawCB(t, true)
 		if cb.Kind == CBAbsent || cb.Kind == CBReturn {
 			cb.Kind = CBPanic
+		}
+		if cb.Kind == CBExit && t.Draw(5) == 0 {
+			cb.Nested = true
 		}
 		return cb
 	}})
